@@ -538,6 +538,15 @@ impl Oracle for C15 {
         let full = [poll_part(w, 1)?, poll_part(w, 2)?];
         ctx.res.obs_keys.push(hash64(format!("{:?}{:?}", full[0].msgs.len(), full[1].msgs.len()).as_bytes()));
         let facts = [w.partition_facts(1), w.partition_facts(2)];
+        // the limit in force is the acknowledged one - also after a restart
+        if facts[0].topic_max_size != self.limit {
+            return Err(format!(
+                "the topic holds the size limit {} after {} but the acknowledged limit is {} (0 = unlimited)",
+                facts[0].topic_max_size,
+                op.short(),
+                self.limit
+            ));
+        }
         if must_be_unchanged {
             if full[0] != prev_full[0] || full[1] != prev_full[1] {
                 return Err("a refused command changed the partition contents".into());
